@@ -277,6 +277,24 @@ package controller
 //@   ensures result == controller.monSnap(recv)
 //@ package github.com/flant/shell-operator/pkg/hook/controller
 
+// C01 / C06: unlocking a monitor id (after the successful Synchronization of its binding) switches on
+// the event callback of exactly the monitor the manager knows under that id, once; an id the manager
+// does not know switches on nothing. Ghost log of the calls of Monitor.EnableKubeEventCb.
+//@ ghost nEnableCb int
+//@ ghost lastEnabledCb kubeeventsmanager.Monitor
+//@ package github.com/flant/shell-operator/pkg/kube_events_manager
+//@ trusted func Monitor.EnableKubeEventCb
+//@   modifies controller.nEnableCb, controller.lastEnabledCb
+//@   ghostset controller.nEnableCb := controller.nEnableCb + 1
+//@   ghostset controller.lastEnabledCb := recv
+//@ package github.com/flant/shell-operator/pkg/hook/controller
+//@ func (*kubernetesBindingsController).UnlockEventsFor
+//@   prop C01, C06
+//@   requires c != nil && c.kubeEventsManager != nil
+//@   modifies nEnableCb, lastEnabledCb
+//@   ensures [enables-the-monitor-named] monOf(monitorID) != nil ==> nEnableCb == old(nEnableCb) + 1 && lastEnabledCb == monOf(monitorID)
+//@   ensures [unknown-monitor-enables-nothing] monOf(monitorID) == nil ==> nEnableCb == old(nEnableCb)
+
 //@ pred SnapMatch(b htypes.OnKubernetesEventConfig, name string) := b.BindingName == name && hasMon(b.Monitor.Metadata.MonitorId)
 
 //@ func (*kubernetesBindingsController).SnapshotsFor
